@@ -177,6 +177,13 @@ func (l *lexer) nextToken() (token, error) {
 	// an unquoted value token type.
 	//
 	// TODO: might be better for readability to define an unquoted value token type.
+	//
+	// readIdent validates from the second character on, so the first one is
+	// checked here: a token cannot start with a character it cannot contain.
+	if !l.isPrintableCharacter(next) || l.isInvalidTokenCharacter(next) {
+		return tok, fmt.Errorf("invalid character %q found in input at position %d", next, l.pos-1)
+	}
+
 	err := l.readIdent(&tok)
 	return tok, err
 }
